@@ -1606,6 +1606,8 @@ func (c *Ctx) ExitsUnder(fn *ssa.Function, idx int) []string {
 			if idx < len(t.Results) {
 				if v, ok := c.evalInt(t.Results[idx], 0); ok {
 					set["const:"+v.ExactString()] = true
+				} else if bv, known := c.fold(t.Results[idx]); known && isBoolType(t.Results[idx].Type()) {
+					set[fmt.Sprintf("const:%v", bv)] = true
 				} else {
 					set[prov.Of(t.Results[idx])] = true
 				}
@@ -2200,3 +2202,8 @@ func (c *Ctx) EvalValue(fn *ssa.Function, v ssa.Value) (string, bool) {
 }
 
 func callKey(c *ssa.Call) string { return fmt.Sprintf("<%p>", c) }
+
+func isBoolType(t types.Type) bool {
+	b, ok := t.Underlying().(*types.Basic)
+	return ok && b.Info()&types.IsBoolean != 0
+}
